@@ -84,6 +84,9 @@ def run_plan(prop, machine, plan, base_seed, jobs, stage_dir, allocfault="", dea
     agg = Agg()
     if findings is None:
         findings = known.load()
+    # the wall budget is split evenly over (backend, environment) groups and, inside a group, in proportion
+    # to the sub-batches' sizes -- so that no backend or sub-batch can starve the others
+    groups = []
     for backend in plan["backends"]:
         subs = [s for s in plan["subs"] if backend in s.get("backends", plan["backends"])]
         envs = []
@@ -92,34 +95,44 @@ def run_plan(prop, machine, plan, base_seed, jobs, stage_dir, allocfault="", dea
             if e not in envs:
                 envs.append(e)
         for e in envs:
-            group = [s_ for s_ in subs if json.dumps(s_.get("env") or {}, sort_keys=True) == e]
-            p = pool.Pool(stage_dir, backend, jobs, allocfault=allocfault, hashseed=hashseed, extra_env=json.loads(e) or None)
-            try:
-                for sub in group:
-                    if deadline is not None and time.monotonic() > deadline:
-                        continue
-                    m = sub.get("machine", machine)
-                    cfg = dict(sub["cfg"])
-                    if want_digests:
-                        cfg["digests"] = True
-                    sub2 = dict(sub)
-                    sub2["cfg"] = cfg
-                    tasks = make_tasks(prop, backend, sub2, base_seed)
-                    nviol = [0]
+            groups.append((backend, e, [s_ for s_ in subs if json.dumps(s_.get("env") or {}, sort_keys=True) == e]))
+    total_left = None if deadline is None else max(1.0, deadline - time.monotonic())
+    weights = [sum(s_["runs"] * s_.get("weight", 1.0) for s_ in g[2]) or 1 for g in groups]
+    for gi, (backend, e, group) in enumerate(groups):
+        g_deadline = None
+        if deadline is not None:
+            remaining = max(1.0, deadline - time.monotonic())
+            share = remaining * weights[gi] / max(1e-9, sum(weights[gi:]))
+            g_deadline = time.monotonic() + share
+        p = pool.Pool(stage_dir, backend, jobs, allocfault=allocfault, hashseed=hashseed, extra_env=json.loads(e) or None)
+        try:
+            gw = [s_["runs"] * s_.get("weight", 1.0) or 1 for s_ in group]
+            for si, sub in enumerate(group):
+                if g_deadline is not None and time.monotonic() > g_deadline:
+                    continue
+                m = sub.get("machine", machine)
+                cfg = dict(sub["cfg"])
+                if want_digests:
+                    cfg["digests"] = True
+                sub2 = dict(sub)
+                sub2["cfg"] = cfg
+                tasks = make_tasks(prop, backend, sub2, base_seed)
+                nviol = [0]
 
-                    def on_result(i, r, _sub=sub["name"], _be=backend):
-                        agg.add(_sub, _be, r)
-                        for ent in r["violations"]:
-                            if any(not known.match(prop, v, findings) for v in ent["violations"]):
-                                nviol[0] += 1
-                        return nviol[0] >= stop_on_violation and stop_on_violation > 0
+                def on_result(i, r, _sub=sub["name"], _be=backend):
+                    agg.add(_sub, _be, r)
+                    for ent in r["violations"]:
+                        if any(not known.match(prop, v, findings) for v in ent["violations"]):
+                            nviol[0] += 1
+                    return nviol[0] >= stop_on_violation and stop_on_violation > 0
 
-                    sub_deadline = deadline
-                    if sub.get("share") and deadline is not None:
-                        sub_deadline = min(deadline, time.monotonic() + sub["share"])
-                    p.map(m, "batch", tasks, on_result=on_result, deadline=sub_deadline)
-            finally:
-                p.close()
+                sub_deadline = g_deadline
+                if g_deadline is not None:
+                    remaining = max(1.0, g_deadline - time.monotonic())
+                    sub_deadline = time.monotonic() + remaining * gw[si] / max(1e-9, sum(gw[si:]))
+                p.map(m, "batch", tasks, on_result=on_result, deadline=sub_deadline)
+        finally:
+            p.close()
     return agg
 
 
